@@ -53,6 +53,103 @@ def decorate_ids(rng, t, rate=0.35):
   return k
 
 
+def mix_case(rng, t, rate=0.4):
+  """ids are accepted case-insensitively ((?i) in both id patterns) and must come back exactly: upper-case some letters of
+  set, leaf, wrapped-device and conduit ids. Returns the number of ids changed."""
+  k = [0]
+  def up(s_):
+    r = ''.join(c.upper() if c.isalpha() and rng.random() < 0.5 else c for c in s_)
+    k[0] += r != s_
+    return r
+  def walk(x, top):
+    if rng.random() < rate and not (top and x['k'] != 'node'):
+      x['id'] = up(x['id'])
+    if x['k'] == 'mf' and rng.random() < rate/2:
+      fl = [up(f) for f in x['flows']]
+      if len(set(fl)) == len(fl):
+        x['flows'] = fl
+    for c in x.get('ch', []):
+      walk(c, False)
+  walk(t, True)
+  return k[0]
+
+
+def case_sibling(rng, t):
+  """two siblings whose ids differ only in case (`Load` next to `load`): distinct devices, distinct labels. The variant
+  is placed before the original most of the time (a case-blind lookup then finds the wrong one first)."""
+  cands = []
+  def walk(x):
+    if x['k'] != 'node':
+      return
+    for j, c in enumerate(x['ch']):
+      if c['k'] == 'leaf' and c['id'].swapcase() != c['id']:
+        cands.append((x, j))
+      walk(c)
+  walk(t)
+  if not cands:
+    return False
+  x, j = rng.choice(cands)
+  new_id = x['ch'][j]['id'].swapcase() if rng.random() < 0.5 else (x['ch'][j]['id'].upper() if x['ch'][j]['id'].upper() != x['ch'][j]['id'] else x['ch'][j]['id'].lower())
+  if any(c['id'] == new_id for c in x['ch']):
+    return False
+  sib = [i for i, c in enumerate(x['ch']) if c['k'] == 'leaf' and i != j]
+  before = [i for i in sib if i < j]
+  if before and rng.random() < 0.8:
+    x['ch'][rng.choice(before)]['id'] = new_id
+  elif len(x['ch']) < 3 or not sib:
+    leaf = copy.deepcopy(x['ch'][j]); leaf['id'] = new_id
+    x['ch'].insert(j if rng.random() < 0.8 else j + 1, leaf)
+  else:
+    x['ch'][rng.choice(sib)]['id'] = new_id
+  return True
+
+
+def _leaf(rng, tier, id, n):
+  return {'k': 'leaf', 'id': id, 'dev': gen.gen_leaf(rng, tier, ['Device', 'CDevice', 'IDevice2', 'PVDevice'], n=n)}
+
+
+def deep_chain(rng, tier, depth, n=2):
+  """a chain of `depth` nested sets (far deeper than the random trees) with leaves hanging off several levels and two
+  leaves at the bottom."""
+  t = {'k': 'node', 'id': 'd%d' % depth, 'sb': None, 'ch': [_leaf(rng, tier, 'x', n), _leaf(rng, tier, 'y', n)], 'sub': False}
+  for lvl in range(depth - 1, 0, -1):
+    kids = [t]
+    if lvl % 3 == 0:
+      kids = [_leaf(rng, tier, 'k%d' % lvl, n)] + kids
+    if lvl % 2 == 1:
+      kids = kids + [_leaf(rng, tier, 'l%d' % lvl, n)]
+    t = {'k': 'node', 'id': 'root' if lvl == 1 else 'd%d' % lvl, 'sb': None, 'ch': kids, 'sub': False}
+  return t, n
+
+
+def wide_set(rng, tier, width, n=1):
+  """one set with `width` leaves that all share the suffix `_e`, inserted in an order that is not the lexicographic
+  order of their ids, next to a nested set with a few more."""
+  nums = list(range(1, width + 1))
+  rng.shuffle(nums)
+  if nums == sorted(nums):
+    nums.reverse()
+  if nums[0] == 1:
+    nums[0], nums[-1] = nums[-1], nums[0]
+  kids = [_leaf(rng, tier, 'z%02d_e' % k, n) for k in nums]
+  inner = {'k': 'node', 'id': 'in', 'sb': None, 'ch': [_leaf(rng, tier, 'q9_e', n), _leaf(rng, tier, 'q1_e', n)], 'sub': False}
+  return {'k': 'node', 'id': 'root', 'sb': None, 'ch': [_leaf(rng, tier, 'first', n)] + kids[:width//2] + [inner] + kids[width//2:], 'sub': False}, n
+
+
+class UserPair:
+  """a minimal user-defined composite: what leaf_devices() documents as the discriminator is support for iteration
+  (its children are iterated and their `.id` read); a parent DeviceSet additionally reads len() and .shape."""
+  def __init__(self, id, kids):
+    self.id = id; self.kids = kids
+  def __len__(self):
+    return len(self.kids[0])
+  def __iter__(self):
+    return iter(self.kids)
+  @property
+  def shape(self):
+    return (sum(int(k.shape[0]) for k in self.kids), len(self))
+
+
 def separator_sibling(rng, t):
   """make a sibling leaf whose id is `<child id><sep><grandchild id>` with sep in '_' '-', next to a nested set /
   adaptor `<child id>` that has a leaf / conduit `<grandchild id>`: `root.load_e` and `root.load.e` both exist and
@@ -115,7 +212,8 @@ class C13(Prop):
   theorems = {'DK.Props.C13': ['DK.C13.' + t for t in THEOREMS],
               'DK.Props.C13find': ['DK.C13.' + t for t in FIND_THEOREMS]}
   rule = ('random rooted ordered trees (depth <= 3 quick / 4 thorough, fan-out <= 3, nested sets, MFDeviceSet / TwoRatioMFDeviceSet adaptors with 1..3 '
-          'conduits, SubBalancedDeviceSet nodes), horizon 1..6 (..10); leaf ids with the regex-special characters Device accepts (+ ( ) [ ]); sibling pairs '
+          'conduits, SubBalancedDeviceSet nodes), horizon 1..6 (..10); once per run a chain of 7-8 nested sets, a set of 16-20 leaves sharing a suffix and a user-defined iterable composite; '
+          'mixed-case ids and siblings differing only in case; leaf ids with the regex-special characters Device accepts (+ ( ) [ ]); sibling pairs '
           '`x_e` / `x.e` that differ only in the separator; flow matrices flat and shaped; non-trivial: some node has children with '
           'different row counts, at least one adaptor, all rows of the flow matrix pairwise different')
   sizes = {'quick': 400, 'thorough': 8000}
@@ -129,9 +227,21 @@ class C13(Prop):
     self.stats = {'cases': 0, 'mf': 0, 'asymmetric': 0, 'distinct_rows': 0, 'duplicate_ids': 0, 'special_ids': 0, 'separator_siblings': 0, 'get_lookups': 0, 'get_ambiguous': 0, 'depth': {}, 'rows': {},
                   'ownership_rows_perturbed': 0, 'ownership_rows_observed': 0}
 
-  def cases(self, rng, tier, count):
+  def special_cases(self, rng, tier):
+    """shapes the random trees never reach, once per run: a deep chain (7 or 8 nested sets), a wide set (16-20 leaves
+    sharing a suffix, inserted out of lexicographic order) and a user-defined iterable composite (oracle only)."""
     out = []
-    for _ in range(count):
+    for t, n in [deep_chain(rng, tier, rng.choice([7, 8]))] + ([deep_chain(rng, tier, 8, 3)] if tier == 'thorough' else []) + [wide_set(rng, tier, rng.randint(16, 20))]:
+      if rng.random() < 0.5:
+        mix_case(rng, t, 0.3)
+      out.append({'tree': t, 'n': n, 'S': X.perm_flow(gen.tree_rows(t), n), 'hist': True, 'shape_family': 'deep' if gen.tree_depth(t) > 4 else 'wide',
+                  '_layout': {'mat': rng.choice(X.MAT_FORMS), 'flat': 'flat'}})
+    out.append({'user_composite': True, 'n': rng.choice([1, 2, 3])})
+    return out
+
+  def cases(self, rng, tier, count):
+    out = self.special_cases(rng, tier)
+    for _ in range(max(0, count - len(out))):
       t, n = X.gen_shape_tree(rng, tier, want_mf=(True if rng.random() < 0.8 else None))
       if rng.random() < 0.12:
         # the root itself is an adaptor (or, rarely, a nested set taken as the root): `MFDeviceSet(dev, flows).map(...)`
@@ -153,12 +263,18 @@ class C13(Prop):
         S = gen.tree_flow(rng, t, n)
       case = {'tree': t, 'n': n, 'S': S, 'hist': rng.random() < 0.5,
               '_layout': {'mat': rng.choice(X.MAT_FORMS), 'flat': rng.choice(['flat', 'flat-strided'])}}
+      if rng.random() < 0.6 and mix_case(rng, t, rng.choice([0.3, 0.7])):
+        case['mixed_case'] = True
       if t['k'] == 'node' and rng.random() < 0.45 and separator_sibling(rng, t):
         case['sep'] = True
         if len(case['S']) != gen.tree_rows(t):     # a leaf was inserted: one more row
           case['S'] = X.perm_flow(gen.tree_rows(t), n)
       if decorate_ids(rng, t, rng.choice([0.0, 0.3, 0.6])):
         case['special'] = True
+      if t['k'] == 'node' and rng.random() < 0.35 and case_sibling(rng, t):
+        case['case_sibling'] = True
+        if len(case['S']) != gen.tree_rows(t):
+          case['S'] = X.perm_flow(gen.tree_rows(t), n)
       if t['k'] == 'node' and rng.random() < self.dup_rate and make_duplicate(rng, t):
         ls = labels_of(t)
         if len(set(ls)) != len(ls):      # same sibling ids, same qualified ids (a leaf next to an adaptor of the same id stays distinct)
@@ -168,6 +284,7 @@ class C13(Prop):
 
   def _note(self, case):
     t = case['tree']; st = self.stats
+    st['mixed_case'] = st.get('mixed_case', 0) + bool(case.get('mixed_case')); st['case_siblings'] = st.get('case_siblings', 0) + bool(case.get('case_sibling'))
     st['cases'] += 1; st['mf'] += gen.tree_has(t, 'mf'); st['asymmetric'] += X.asymmetric(t); st['distinct_rows'] += X.distinct_rows(case['S'])
     st['duplicate_ids'] += bool(case.get('dup')); st['special_ids'] += bool(case.get('special')); st['separator_siblings'] += bool(case.get('sep'))
     for k, v in (('depth', gen.tree_depth(t)), ('rows', gen.tree_rows(t))):
@@ -178,6 +295,8 @@ class C13(Prop):
 
   # ------------------------------------------------------------------ T2
   def ops(self, case):
+    if case.get('user_composite'):
+      return []            # oracle only: the model has no user-defined composites
     self._note(case)
     t, n = case['tree'], case['n']
     dev = build.build_tree(t)
@@ -207,7 +326,35 @@ class C13(Prop):
     return ops
 
   # ------------------------------------------------------------------ oracle (implementation only)
+  def _user_composite(self, case):
+    """root[a, P[x, Q[y, z]], b] where P and Q are user-defined composites that only support what leaf_devices() documents
+    (iteration over children with ids): one label per row, dot-joined, map pairs them with the rows, get/find return the leaves."""
+    n_ = X.np(); dk = C.repo()
+    n = case['n']
+    a, x, y, z, b = [dk.Device(i, n, (0, 1)) for i in ('a', 'x', 'y', 'z', 'b')]
+    root = dk.DeviceSet('root', [a, UserPair('P', [x, UserPair('Q', [y, z])]), b])
+    exp = ['root.a', 'root.P.x', 'root.P.Q.y', 'root.P.Q.z', 'root.b']; objs = [a, x, y, z, b]
+    self.stats['user_composite_cases'] = self.stats.get('user_composite_cases', 0) + 1
+    def bad(detail):
+      return [{'key': {'cls': 'BaseDevice', 'kind': 'user-composite'}, 'detail': detail + ' | tree: DeviceSet(root, [Device a, P[Device x, Q[Device y, Device z]], Device b]) with P, Q '
+               'user-defined iterable composites (id, __len__, __iter__, shape), n=%d' % n}]
+    try:
+      L = root.leaf_devices()
+      if [k for k, _ in L] != exp or any(o is not e for (_, o), e in zip(L, objs)) or len(L) != int(root.shape[0]):
+        return bad('leaf_devices() gives %s for %d rows; iterating the composites gives %s' % ([k for k, _ in L], int(root.shape[0]), exp))
+      S = n_.arange(5*n, dtype=float).reshape(5, n)
+      M = list(root.map(S.reshape(-1)))
+      if [k for k, _ in M] != exp or any(not (n_.array(r) == S[i]).all() for i, (_, r) in enumerate(M)):
+        return bad('map() gives %s' % [(k, n_.array(r).tolist()) for k, r in M])
+      if root.get('Q.z') is not z or root.get('P.x') is not x or [o for o in root.find('root\\.P\\..*')] != [x, y, z]:
+        return bad('get/find do not return the leaves under the user-defined composites')
+    except Exception as e:
+      return bad('raised %s: %s' % (type(e).__name__, str(e)[:160]))
+    return []
+
   def oracle(self, case):
+    if case.get('user_composite'):
+      return self._user_composite(case)
     t = case['tree']
     fails = self._check(build.build_tree(t), case, '', '')
     if not fails and case.get('hist'):
@@ -402,6 +549,8 @@ class C13(Prop):
     return fails[:2]
 
   def nontrivial(self, case):
+    if case.get('user_composite'):
+      return False
     t = case['tree']
     return X.asymmetric(t) and gen.tree_has(t, 'mf') and X.distinct_rows(case['S'])
 
